@@ -1985,6 +1985,60 @@ bail:
     cleanup();
 }
 
+/* (20) T8 with an unknown reflect AND a measurement-error model: weighted
+ * Levenberg-Marquardt (solve_auto with V matrices) and p-value */
+static void script_lmw(void)
+{
+    static const double nfv[NF] = { 1.0e-4, 2.0e-4 };
+    static const double trv[NF] = { 1.0e-5, 1.0e-5 };
+    const double complex truth = 0.8 - 0.25 * I;
+
+    CAL_BEGIN(ETS_T8, VNACAL_T8, 26, 1.0e-4);
+    /* frequency_vector NULL: the calibration's own grid */
+    STEP_RC("set_m_error", vnacal_new_set_m_error(vnp, NULL, NF, nfv, trv));
+    STEP_RC("set_pvalue_limit", vnacal_new_set_pvalue_limit(vnp, 1.0e-9));
+    STEP_IDX("make_scalar_guess", W.h[1], vnacal_make_scalar_parameter(vcp,
+		0.9 - 0.1 * I));
+    STEP_IDX("make_unknown", W.h[0], vnacal_make_unknown_parameter(vcp,
+		W.h[1]));
+    sim_measure_const(&sim, G_SHORT, 0.0, 0.0, 0.1, 0, &mb);
+    STEP_RC("add_short1", vnacal_new_add_single_reflect_m(vnp, mb.m, 2, 2,
+		VNACAL_SHORT, 1));
+    sim_measure_const(&sim, G_OPEN, 0.0, 0.0, 0.1, 0, &mb);
+    STEP_RC("add_open1", vnacal_new_add_single_reflect_m(vnp, mb.m, 2, 2,
+		VNACAL_OPEN, 1));
+    sim_measure_const(&sim, G_MATCH, 0.0, 0.0, 0.1, 0, &mb);
+    STEP_RC("add_match1", vnacal_new_add_single_reflect_m(vnp, mb.m, 2, 2,
+		VNACAL_MATCH, 1));
+    sim_measure_const(&sim, 0.2, 0.0, 0.0, G_SHORT, 0, &mb);
+    STEP_RC("add_short2", vnacal_new_add_single_reflect_m(vnp, mb.m, 2, 2,
+		VNACAL_SHORT, 2));
+    sim_measure_const(&sim, 0.2, 0.0, 0.0, truth, 0, &mb);
+    STEP_RC("add_unknown2", vnacal_new_add_single_reflect_m(vnp, mb.m, 2, 2,
+		W.h[0], 2));
+    sim_measure_const(&sim, 0.2, 0.0, 0.0, G_MATCH, 0, &mb);
+    STEP_RC("add_match2", vnacal_new_add_single_reflect_m(vnp, mb.m, 2, 2,
+		VNACAL_MATCH, 2));
+    sim_measure_const(&sim, 0.0, 1.0, 1.0, 0.0, 0, &mb);
+    STEP_RC("add_through", vnacal_new_add_through_m(vnp, mb.m, 2, 2, 1, 2));
+    STEP_RC("solve", vnacal_new_solve(vnp));
+    W.npval = 1;
+    STEP_CPLX("get_solved_value", W.pval[0], vnacal_get_parameter_value(vcp,
+		W.h[0], 2.0e9));
+    STEP_IDX("add_calibration", W.ci[0], vnacal_add_calibration(vcp,
+		"cal_lmw", vnp));
+    /* switching the error model off again and solving once more */
+    STEP_RC("reset_m_error", vnacal_new_set_m_error(vnp, NULL, 1, NULL, NULL));
+    STEP_RC("solve_unweighted", vnacal_new_solve(vnp));
+    STEP_IDX("replace_calibration", W.ci[0], vnacal_add_calibration(vcp,
+		"cal_lmw", vnp));
+    STEP_VOID("free", (vnacal_free(vcp), W.vc[0] = NULL, W.vn = NULL));
+    for (int i = 0; i < MAXH; ++i)
+	W.h[i] = -1;
+bail:
+    cleanup();
+}
+
 /* ------------------------------------------------------------------- main */
 
 static const struct {
@@ -2010,6 +2064,7 @@ static const struct {
     { "t8p3", script_t8p3 },
     { "bulk", script_bulk },
     { "refuse", script_refuse },
+    { "lmw", script_lmw },
 };
 #define NSCRIPTS ((int)(sizeof(scripts) / sizeof(scripts[0])))
 
